@@ -102,7 +102,10 @@ def realize(model_sched):
 
 def mk_case(i, model_sched, rnd, label, av=None, ps=None):
     cfg = {"pageSize": ps or rnd.choice([4096, 4096, 1024]), "autoVacuum": av or rnd.choice(["incremental", "incremental", "none"]),
-           "rows": 2 * G, "seed": rnd.randrange(1, 1 << 20)}
+           "rows": 2 * G, "seed": rnd.randrange(1, 1 << 20),
+           # every third case keeps the VFS page cache at its default size (the others shrink it to one entry so that it cannot
+           # mask the index): cache invalidation on poll / unlock is part of what is served
+           "bigCache": i % 3 == 1 or label == "lockpoll"}
     return {"id": i, "cfg": cfg, "sched": realize(model_sched), "label": label, "model": model_sched}
 
 
@@ -298,6 +301,12 @@ def main():
                 cases.append(mk_case(len(cases), ms, rnd, "witness-" + fid, av="incremental", ps=4096))
             for ms in DIRECTED:
                 cases.append(mk_case(len(cases), ms, rnd, "directed"))
+            # a poll lands while a reader holds the shared lock (updates parked in the pending index), the reader re-reads before
+            # it unlocks (its view must not move), after the unlock the new version must be served - with the page cache enabled
+            for w in ([["Write", 1]], [["Write", 2], ["Write", 1]], [["Grow", 3], ["Write", 2]], [["Write", 1], ["Compact1"], ["Write", 3]]):
+                for pre in ([], [["Write", 2], ["Poll"]]):
+                    ms = [["Write", 1], ["Write", 2], ["Open"]] + pre + [["Lock"]] + w + [["Poll"], ["Poll"], ["Unlock"], ["Poll"], ["Lock"]] + w + [["Poll"], ["Unlock"]]
+                    cases.append(mk_case(len(cases), ms, rnd, "lockpoll"))
             rs, sims = fsim.result()
             rep.add_tlc("Sim_Vfs", rs, "MaxPg=4 MaxTx=8 MaxL1=3 all features, %d behaviours of depth %d" % (nsim, depth))
             for ms in sims:
